@@ -15,6 +15,11 @@ binding:   (a) every CASE line of TLC (old, script, expected new) and every CORR
                newline styles and source kinds: list / tuple / iterator / generator / file-like /
                readline-iterator) and replayed into
                patch_lines(list(old), patches_from_ed_script(source));
+           (a') no state between calls: for every case (thorough: 1 in 16) one materialised
+               patches list is applied to two copies of old (copy 1 mutated in between), the script
+               is parsed twice with the first parse's hunk lists mutated in between, two generators
+               over two different scripts are advanced alternately, and the caller's script / old
+               lists must stay untouched; expected results are TLC's;
            (b) random (old, new) pairs, script from an independent differ (difflib opcodes emitted
                bottom-up in three styles; thorough: /usr/bin/diff -e), the real code applies every
                script prefix and the whole script; TLC (TraceEdScript) applies the logged commands
@@ -39,7 +44,7 @@ import core
 
 MANIFEST = dict(
     technique="TLA+ spec EdScript (ed reference semantics + declarative diff target + line automaton of patches_from_ed_script + slice assignment of patch_lines) model-checked by TLC over all bounded buffers x generator scripts x single corruptions; every TLC case replayed into the real functions (str/bytes, list/iterator/file-like sources); recorded executions on difflib / diff -e scripts validated by TLC (TraceEdScript)",
-    text="TLC enumerates every buffer of at most 4 lines over 2 line ids and every script of at most 3 commands that a bottom-up differ can emit (a/c/d, one- and two-address forms, blocks of 1-2 lines, hunks that touch) and checks in each state that the (first,last,lines) conversion plus slice assignment equals ed's semantics, that command-by-command application reaches the declarative target of the diff, and that the parser automaton rejects every script with one syntactic corruption (8 kinds). Each enumerated case and corruption carries TLC's expected result and is replayed into patches_from_ed_script/patch_lines with str and bytes concretizations (lines such as '..', '.x', '1d', '2,3c', empty, non-ASCII) from list, iterator and file-like sources. In the other direction random (old,new) pairs up to 30 lines get a script from an independent differ (difflib in three emission styles; diff -e in the thorough tier); the real code's result for every script prefix and for the whole script is logged and TLC must explain it with EdApply and reach new.",
+    text="TLC enumerates every buffer of at most 4 lines over 2 line ids and every script of at most 3 commands that a bottom-up differ can emit (a/c/d, one- and two-address forms, blocks of 1-2 lines, hunks that touch) and checks in each state that the (first,last,lines) conversion plus slice assignment equals ed's semantics, that command-by-command application reaches the declarative target of the diff, and that the parser automaton rejects every script with one syntactic corruption (8 kinds). Each enumerated case and corruption carries TLC's expected result and is replayed into patches_from_ed_script/patch_lines with str and bytes concretizations (lines such as '..', '.x', '1d', '2,3c', empty, non-ASCII) from list, iterator and file-like sources; for every case the check also shows that no state survives between calls (one materialised patches list applied to two buffers, the script parsed twice with the first parse's hunk lists mutated in between, two parsers over different scripts advanced alternately, caller's lists untouched). In the other direction random (old,new) pairs up to 30 lines get a script from an independent differ (difflib in three emission styles; diff -e in the thorough tier); the real code's result for every script prefix and for the whole script is logged and TLC must explain it with EdApply and reach new.",
     note="Small-scope for the exhaustive part (buffers <= 4 lines, scripts <= 3 commands); line text is sampled. Semantically odd commands (0c, 0d, reversed ranges, out-of-range addresses, non-ASCII digits, empty blocks, white space around commands) are executed but unspecified. Trusted: TLC, the concretizer, difflib/diff -e as script sources, the small parser that reads diff -e output back into a command list (a wrong parse is rejected by TLC, never accepted). Three spec-level negative controls and corrupted control traces are required to fail in every run.",
     design="5 (C18)")
 
@@ -219,6 +224,98 @@ def check_raises(old_lines, script_lines, kind, typ):
     return None
 
 
+# ------------------------------------------------------------------ no state between calls
+# The property quantifies over ALL (old, new) pairs whatever was processed before: parsing and
+# applying must not keep or share state (memoised parses, hunk lists that alias each other or the
+# caller's data, a module-level accumulator).  Expected results are TLC's, as everywhere else.
+
+def _hunks(patches):
+    """the `lines` lists of materialised patches, or None when a patch is not a (first, last, list)
+    triple any more (diagnostic: the hunk-level mutations are then skipped)"""
+    try:
+        out = [p[2] for p in patches]
+        return out if all(isinstance(h, list) for h in out) else None
+    except Exception:               # noqa: BLE001
+        return None
+
+
+def check_stateless(A, B):
+    """A, B: dicts(old_lines, script_lines, expected) of two different TLC cases.
+    (1) one materialised patches list applied to two independent copies of old, copy 1 mutated in
+        between;  (2) the same script parsed twice (list source), the hunk lists of the first parse
+        mutated in between;  (3) two generators over two scripts advanced alternately;
+    (4) parsing leaves the caller's script list alone, patch_lines touches only the list it is given.
+    -> None or a message"""
+    from debian.debian_support import patch_lines, patches_from_ed_script
+    typ = type(A["script_lines"][0]) if A["script_lines"] else type(A["old_lines"][0]) if A["old_lines"] else str
+    junk = "<junk>\n" if typ is str else b"<junk>\n"
+    what = "script %s on %s" % (show(A["script_lines"]), show(A["old_lines"]))
+    step = "parsing"
+    try:
+        script = list(A["script_lines"])
+        old = list(A["old_lines"])
+        exp = list(A["expected"])
+        # (1) + (4)
+        patches = list(patches_from_ed_script(script))
+        if script != A["script_lines"]:
+            return "%s: parsing modified the caller's script list: %s" % (what, show(script))
+        hunks = _hunks(patches)
+        snap = [list(h) for h in hunks] if hunks is not None else None
+        step = "applying the materialised patches"
+        c1 = list(old)
+        patch_lines(c1, patches)
+        if c1 != exp:
+            return "%s: list(patches_from_ed_script(script)) applied afterwards gives %s, specification says %s" % (what, show(c1), show(exp))
+        if old != A["old_lines"] or script != A["script_lines"]:
+            return "%s: patch_lines modified a list it was not given" % what
+        if hunks is not None and [list(h) for h in hunks] != snap:
+            return "%s: patch_lines modified the hunk lists of the patches: %r" % (what, patches)
+        c1.reverse()
+        c1.append(junk)
+        c1[0] = junk
+        step = "applying the same patches to a second copy"
+        c2 = list(old)
+        patch_lines(c2, patches)
+        if c2 != exp:
+            return "%s: the same patches applied to a second copy of the buffer (first result mutated) give %s, specification says %s" % (what, show(c2), show(exp))
+        # (2)
+        if hunks is not None:
+            for h in hunks:
+                h[:] = [junk, junk]
+        del c2[:]
+        step = "parsing the script a second time"
+        patches2 = list(patches_from_ed_script(script))
+        c3 = list(old)
+        patch_lines(c3, patches2)
+        if c3 != exp:
+            return "%s: second parse of the same script (hunk lists of the first parse mutated) gives %s, specification says %s" % (what, show(c3), show(exp))
+        # (3)
+        step = "interleaving with the script %s" % show(B["script_lines"])
+        ga = patches_from_ed_script(list(A["script_lines"]))
+        gb = patches_from_ed_script(list(B["script_lines"]))
+        pa, pb = [], []
+        end = object()
+        live = [(ga, pa), (gb, pb)]
+        while live:
+            for g, acc in list(live):
+                x = next(g, end)
+                if x is end:
+                    live.remove((g, acc))
+                else:
+                    acc.append(x)
+        ca, cb = list(old), list(B["old_lines"])
+        patch_lines(ca, pa)
+        patch_lines(cb, pb)
+        if ca != exp:
+            return "%s: parsed alternately with the script %s it gives %s, specification says %s" % (what, show(B["script_lines"]), show(ca), show(exp))
+        if cb != B["expected"]:
+            return "script %s on %s: parsed alternately with the script %s it gives %s, specification says %s" % (
+                show(B["script_lines"]), show(B["old_lines"]), show(A["script_lines"]), show(cb), show(B["expected"]))
+    except Exception as e:          # noqa: BLE001 -- observation
+        return "%s: %s raised %s (%s), specification says result %s" % (what, step, type(e).__name__, e, show(A["expected"]))
+    return None
+
+
 # ------------------------------------------------------------------ TLC output
 
 def cfg_constants(name):
@@ -292,6 +389,8 @@ def replay_cases(ctx, raw_path, maxbuf, quick):
     per_kind = {}
     per_style = {}
     samples = {}
+    stash = []
+    stash_mod = 1 if quick else 16
     for tag, v, h in stream_printed(raw_path):
         if len(ctx.violations) >= 5:
             break
@@ -324,6 +423,8 @@ def replay_cases(ctx, raw_path, maxbuf, quick):
                                    "expected": {"res": "ok", "lines": expected}}, msg)
                     break
             ctx.case_seen(("case", h, ncase), bool(toks))
+            if h % stash_mod == 0:
+                stash.append((h, json.dumps(v, separators=(",", ":"))))
             if len(toks) >= 5 and v["old"] and h % 3001 < 3:
                 samples[("a", h)] = "CASE old=%s script=%s -> new=%s; e.g. %s on %s" % (
                     v["old"], json.dumps(toks, separators=(",", ":")), v["new"], show(script_lines), show(old_lines))
@@ -355,6 +456,28 @@ def replay_cases(ctx, raw_path, maxbuf, quick):
             ctx.case_seen(("corrupt", h, ncorr), True)
             if len(v["lines"]) >= 4 and h % 1009 < 3:
                 samples[("b", v["kind"], h)] = "CORRUPT kind=%s at line %d: %s -> ValueError" % (v["kind"], v["pos"], show(script_lines))
+    # no state between calls: a deterministic subset of the cases, paired in hash order
+    stash.sort()
+    nstate = 0
+    prev = None
+    for h, txt in stash:
+        if len(ctx.violations) >= 5:
+            break
+        v = json.loads(txt)
+        hc = HashChoice((h + 17) ^ (ctx.seed * 40503 & 0x7FFFFFFF))
+        typ = hc.choice(TYPES)
+        nl = hc.choice(NLS) if hc.random() < 0.5 else "nl"
+        conc = hc.choice(concs[(typ, nl, False)])
+        cur = {"old_lines": conc.buf(v["old"]), "script_lines": conc.script(v["lines"]), "expected": conc.buf(v["new"]),
+               "abstract": v}
+        if prev is not None:
+            msg = check_stateless(cur, prev)
+            nstate += 1
+            if msg:
+                ctx.violation({"kind": "stateless", "A": cur, "B": prev}, "[state between calls] " + msg)
+        prev = cur
+    ctx.extra["stateless_pairs_checked"] = nstate
+    ctx.evaluations += nstate
     ks = sorted(samples)
     for k in [x for x in ks if x[0] == "a"][:2] + [x for x in ks if x[0] == "b"][:2]:
         ctx.sample(samples[k])
@@ -755,6 +878,8 @@ def replay(ctx, case):
         return check_apply(case["old_lines"], case["script_lines"], case["expected"]["lines"], case["src"], case["typ"])
     if kind == "corrupt":
         return check_raises(case["old_lines"], case["script_lines"], case["src"], case["typ"])
+    if kind == "stateless":
+        return check_stateless(case["A"], case["B"])
     if kind == "trace":
         t = case["trace"]
         if t["kind"] == "corrupt":
